@@ -397,9 +397,6 @@ func (p *ProjectRunner) GetProcessState(name string) (*types.ProcessState, error
 // getProcessStatePtr returns the state object of a process itself, nil if
 // there is none; GetProcessState() hands out copies
 func (p *ProjectRunner) getProcessStatePtr(name string) *types.ProcessState {
-	if proc := p.getRunningProcess(name); proc != nil {
-		return proc.getStatePtr()
-	}
 	p.statesMutex.Lock()
 	defer p.statesMutex.Unlock()
 	return p.processStates[name]
